@@ -143,15 +143,15 @@ type workerFinding struct {
 }
 
 type workerOut struct {
-	Items      int64                     `json:"items"`
-	Transitions int64                    `json:"transitions"`
-	Hashes     string                    `json:"hashes"` // hex of little-endian uint64s
-	Outcomes   map[string]int            `json:"outcomes"`
-	Nontrivial int64                     `json:"nontrivial"`
-	Findings   map[string]*workerFinding `json:"findings"`
-	Complete   bool                      `json:"complete"`
-	LastIdx    int64                     `json:"last_idx"`
-	Samples    []HistReplay              `json:"samples"`
+	Items       int64                     `json:"items"`
+	Transitions int64                     `json:"transitions"`
+	Hashes      string                    `json:"hashes"` // hex of little-endian uint64s
+	Outcomes    map[string]int            `json:"outcomes"`
+	Nontrivial  int64                     `json:"nontrivial"`
+	Findings    map[string]*workerFinding `json:"findings"`
+	Complete    bool                      `json:"complete"`
+	LastIdx     int64                     `json:"last_idx"`
+	Samples     []HistReplay              `json:"samples"`
 }
 
 func (p *HistProp) run(sc *Scenario, blocks []chain.Block) HistResult {
